@@ -31,6 +31,10 @@ _LOGGER = logging.getLogger(__name__)
 
 
 COMMON_KW_NAMES = ("src", "dst", "path", "target", "name", "filename", "file")
+# Keyword spellings of the first (source / only path) and of the second (destination) parameter
+# of the patched functions; a destination must never be resolved to the source keyword.
+FIRST_ARG_KW_NAMES = ("src", "path", "name", "filename", "file")
+SECOND_ARG_KW_NAMES = ("dst", "target")
 
 
 @lru_cache(maxsize=8192)
@@ -119,7 +123,8 @@ class FilesystemIsolation(ContextDecorator):
             return None
         if index < len(args):
             return args[index]
-        for name in COMMON_KW_NAMES:
+        names = SECOND_ARG_KW_NAMES if index == 1 else FIRST_ARG_KW_NAMES
+        for name in names:
             if name in kwargs:
                 return kwargs[name]
         return None
